@@ -1047,8 +1047,13 @@ fn gen_op(rng: &mut Rng, w: &mut World, out: &mut Out) {
         out.line("sub");
         w.subs += 1;
     } else if r < 88 {
-        let s = if w.subs == 0 || rng.chance(3) { w.subs } else { rng.below(w.subs as u64) as usize };
-        out.line(format!("poll {s}"));
+        if w.subs == 0 && !rng.chance(10) {
+            out.line("sub");
+            w.subs += 1;
+        } else {
+            let s = if w.subs == 0 || rng.chance(3) { w.subs } else { rng.below(w.subs as u64) as usize };
+            out.line(format!("poll {s}"));
+        }
     } else if r < 92 {
         out.line("exch off");
         w.gate = false;
